@@ -59,7 +59,9 @@ Definition empty_state : vstate :=
 
 (* VMState also carries the per-thread visit counters; they are kept beside the rest of the state
    because no opcode body touches them (only the main loop does) *)
-Record thread := mk_thread { tstate : vstate; tvis : list (N * N); tip : N; tgas : N }.
+(* tpath is a ghost: the outcomes of the conditional jumps this thread has passed (true = it is the forked,
+   jump-taken copy), used to line a retired state up with the path of the reference EVM *)
+Record thread := mk_thread { tstate : vstate; tvis : list (N * N); tip : N; tgas : N; tpath : list bool }.
 
 (* ---- association lists -------------------------------------------------------------------- *)
 Section Assoc.
@@ -439,6 +441,7 @@ Record vm := mk_vm {
   v_polls : N;
   v_counter : N;                 (* iterations of the main loop so far *)
   v_retired : list (N * N);      (* (instruction pointer, gas used) of every retired thread, in order *)
+  v_paths : list (list bool);    (* ghost: tpath of every retired thread, in order *)
   v_cfg : config }.
 
 Definition exec_jump (code : list instr) (c : octx) : octx * option exec_err * ctl :=
@@ -552,10 +555,10 @@ Definition advance (m : vm) (t : thread) (rest : list thread) (forked : list thr
   if exceeded || out_of_gas || v_killed m then
     mk_vm (v_code m) (rest ++ forked) (v_stored m ++ [(tstate t, tvis t)]) (v_jt m) false
       (if out_of_gas then sort_errors (v_errors m ++ [(ip, EGasLimitExceeded)]) else v_errors m)
-      (v_next_id m) (v_polls m) (v_counter m) (v_retired m ++ [(ip, tgas t)]) cfg
+      (v_next_id m) (v_polls m) (v_counter m) (v_retired m ++ [(ip, tgas t)]) (v_paths m ++ [tpath t]) cfg
   else
-    mk_vm (v_code m) (mk_thread (tstate t) (tvis t) next (tgas t) :: rest ++ forked) (v_stored m) (v_jt m) false
-      (v_errors m) (v_next_id m) (v_polls m) (v_counter m) (v_retired m) cfg.
+    mk_vm (v_code m) (mk_thread (tstate t) (tvis t) next (tgas t) (tpath t) :: rest ++ forked) (v_stored m) (v_jt m) false
+      (v_errors m) (v_next_id m) (v_polls m) (v_counter m) (v_retired m) (v_paths m) cfg.
 
 (* one iteration of the `while let Ok(instruction) = self.current_instruction()` loop *)
 Definition vm_step (m : vm) : step_result :=
@@ -570,7 +573,7 @@ Definition vm_step (m : vm) : step_result :=
           let c0 := mk_octx [] (tstate t) (v_next_id m) (v_killed m) (v_polls m) in
           let '(stopped, c1) := if (v_counter m mod poll_every cfg =? 0) then poll cfg c0 else (false, c0) in
           if stopped then SStopped ip (mk_vm (v_code m) (v_queue m) (v_stored m) (v_jt m) (v_killed m)
-                                         (v_errors m) (v_next_id m) (o_polls c1) (v_counter m) (v_retired m) cfg)
+                                         (v_errors m) (v_next_id m) (o_polls c1) (v_counter m) (v_retired m) (v_paths m) cfg)
           else
             let vis := bump ip (tvis t) in           (* mark_visited *)
             let '(c3, err, stored_err, k, jt') := exec_instr cfg (v_code m) vis (v_jt m) ip i c1 in
@@ -585,12 +588,13 @@ Definition vm_step (m : vm) : step_result :=
                 | Some e => ((if is_jump_err e && permissive cfg then errors1 else errors1 ++ [(ip, e)]), true, tgas t)
                 end in
               let ip' := match k with CJump target => target | _ => ip end in
-              let t' := mk_thread (o_st c3) vis ip' gas' in
+              let at_jumpi := is_jumpi i in
+              let t' := mk_thread (o_st c3) vis ip' gas' (if at_jumpi then tpath t ++ [false] else tpath t) in
               let forked := match k with
-                            | CFork target => [mk_thread (with_fork_point (o_st c3) ip) vis target (tgas t)]
+                            | CFork target => [mk_thread (with_fork_point (o_st c3) ip) vis target (tgas t) (tpath t ++ [true])]
                             | _ => [] end in
               let m1 := mk_vm (v_code m) (v_queue m) (v_stored m) jt' killed errors2 (o_id c3) (o_polls c3)
-                          (v_counter m + 1) (v_retired m) cfg in
+                          (v_counter m + 1) (v_retired m) (v_paths m) cfg in
               SRunning (advance m1 t' rest forked)
             end
       end
@@ -624,6 +628,6 @@ Fixpoint run_p (p : positive) (m : vm) : exec_result :=
   end.
 
 Definition init_vm (code : list instr) (cfg : config) : vm :=
-  mk_vm code [mk_thread empty_state [] 0 0] [] [] false [] FIRST_ID 0 0 [] cfg.
+  mk_vm code [mk_thread empty_state [] 0 0 []] [] [] false [] FIRST_ID 0 0 [] [] cfg.
 
 End WithFold.
